@@ -64,6 +64,8 @@ def run(ctx):
                         'heartbeats are snapshots of a ground-truth split/merge/conf-change/leader-change history, delivered in any order, '
                         'any number of times']
     ctx.mc('region', 'RegionCache', 'MC_RegionCache.cfg' if q else 'MC_RegionCache_thorough.cfg', timeout=3000)
+    # one handler, with restarts of PD (the served set is loaded back from storage without leaders and terms)
+    ctx.mc('region', 'RegionCache', 'MC_RegionCache_restart.cfg', timeout=1800)
     seeds = [ctx.seed] if q else [ctx.seed + k for k in range(4)]
     for sd in seeds:
         behs = ctx.simulate('region', 'RegionCache', 'Sim_RegionCache.cfg', num=120 if q else 500, depth=40, seed=sd)
@@ -77,6 +79,8 @@ def run(ctx):
         # ... and one handler only (heartbeats handled one at a time): what is persisted must equal what is served at the end of every
         # behaviour, with the region storage flushed at different points of the history
         behs += ctx.simulate('region', 'RegionCache', 'Sim_RegionCache_seq.cfg', num=120 if q else 500, depth=50, seed=sd)
+        # ... and the same with the PD process stopped and started again on its data in between (a real restart: 1-2 s each)
+        behs += ctx.simulate('region', 'RegionCache', 'Sim_RegionCache_restart.cfg', num=12 if q else 40, depth=50, seed=sd)
         bj = os.path.join(ctx.dir, 'behs.json')
         json.dump(behs, open(bj, 'w'))
         tr = os.path.join(ctx.dir, 'cache_%d.ndjson' % sd)
